@@ -50,11 +50,14 @@ DAC_BVLS::DAC_BVLS(uint tamCode, uint nLevels, std::vector<uint> *levelsIndex,
   this->nLevels = nLevels;
   this->levels = levels;
   this->bS = new BitSequenceRG(*bS, 4);
-  this->levelsIndex = new uint[nLevels];
+  // nLevels + 1 entries, as save(), load() and getSize() assume: the last one
+  // marks the end of the last level
+  this->levelsIndex = new uint[nLevels + 1];
   this->rankLevels = new uint[nLevels];
 
   for (uint i = 0; i < nLevels; i++)
     this->levelsIndex[i] = (*levelsIndex)[i];
+  this->levelsIndex[nLevels] = tamCode;
 
   this->rankLevels[0] = 0;
   for (uint i = 1; i < nLevels; i++)
